@@ -16,6 +16,7 @@ import time
 
 from sim import atlas as atlas_mod
 from sim import bootstrap, forkpool, ops, seeds, ser, setshim, textgen
+from sim import knobs as knobs_mod
 from sim.baton import Baton, SimCancelled, SimOverrun
 from sim.simlock import SimDeadlock
 
@@ -37,6 +38,9 @@ def exec_scenario(scn):
     from eyecite.models import Document, FullCaseCitation
 
     st = seeds.Streams(scn["seed"])
+    if scn.get("knob"):
+        # capacities of module-level caches shrunk by the simulator (sim/knobs.py)
+        knobs_mod.apply(knobs_mod.discover(), int(scn["knob"]))
     shim_mods = setshim.install(scn.get("setorder", "off"), st.get("setorder"))
     threads = scn["threads"]
     n = len(threads)
@@ -354,6 +358,10 @@ def _with_free_frames(fn, free):
 
     need = sys.getrecursionlimit() - _frames_below() - int(free) - 2
     return down(max(0, need))
+
+
+def _discover_knobs(_):
+    return knobs_mod.discover()
 
 
 def exec_depth(job):
@@ -816,7 +824,8 @@ class Checker:
         statements is hit by construction, whatever its width and however
         rarely the path runs); in `all` mode every line event (stride 1 =
         every single-pre-emption interleaving of the two calls)."""
-        g = seeds.Streams(seeds.h64(self.root, "sweep")).get("gen")
+        knob = getattr(self, "_sweep_knob", None)
+        g = seeds.Streams(seeds.h64(self.root, "sweep", knob or 0)).get("gen")
         tg = textgen.Gen(g, atlas)
         ties = [a for a in atlas if a["tie"]]
         stride = max(1, int(os.environ.get("VERIF_C15_SWEEP_STRIDE", self.cfg["sweep_stride"])))
@@ -824,6 +833,10 @@ class Checker:
         n_all = self.cfg.get("sweep_all_pairs", 0)
         t_start = time.monotonic()
         t_end = t_start + self.cfg["sweep_s"]
+        if knob:
+            npairs = self.cfg.get("knob_pairs", 2)
+            n_all = 0
+            t_end = t_start + self.cfg.get("knob_s", 25)
 
         def phase_mode():
             """The sweep budget is shared: first the line-site sweeps over many
@@ -846,7 +859,23 @@ class Checker:
                            "complete_preemption_sweeps": 0, "complete_cancellation_sweeps": 0,
                            "skipped_long": 0, "samples": []}
 
+        knob_names = set()
+
         def doc():
+            if knob:
+                # a full case citation and a later pin-cited reference to one of
+                # its parties: the most state-hungry path of an extraction
+                # (one citation only: with a parallel citation the second lookup of
+                # the same names repairs what the first one lost)
+                for _ in range(50):
+                    p1, p2 = tg.name(), tg.name()
+                    if p1 != p2 and not ({p1, p2} & knob_names):
+                        break
+                knob_names.update((p1, p2))
+                rep = g.choice(["U.S.", "F.2d", "F. Supp.", "Cal. 3d", "N.E.2d"])
+                t = (f"{tg.words(2).capitalize()} {p1} v. {p2}, {tg.vol()} {rep} {tg.page()} ({tg.year()}). "
+                     f"{p2} at 17; {p1}, supra, at 3. Id. at 4")
+                return t[:300]
             fr = [tg.pick(ties)] if ties and g.random() < 0.5 else None
             # half of the sweep documents exercise the court lookup for sure (its
             # first use in a process is a lazy-initialisation site)
@@ -888,19 +917,23 @@ class Checker:
         # completed even on a loaded machine: coverage of these two modes must not
         # depend on how busy the host is (hard cap: 2.5 x the sweep budget)
         t_hard = t_start + 2.5 * self.cfg["sweep_s"]
+        if knob:
+            t_hard = t_end + 15
         while sw["pairs"] < npairs and tries < npairs * 4 and (
                 time.monotonic() < t_end or (sw["pairs"] < 2 and time.monotonic() < t_hard)):
             tries += 1
-            pi = tries
+            pi = tries + (1000 * knob if knob else 0)
             a, b = doc(), doc()
-            if g.random() < 0.2:
+            if g.random() < 0.2 and not knob:
                 b = a
             x = g.random()
             ma, mb_ = (("markup", "markup") if x < 0.3 else ("plain", "plain") if x < 0.65 else
                        ("ra", "plain") if x < 0.8 else ("markup", "plain") if x < 0.9 else ("plain", "markup"))
             # the first pairs of every run rotate through the modes, so that even a
             # short sweep covers markup mode, the court lookup and plain mode
-            if sw["pairs"] % 3 == 0:
+            if knob:
+                ma, mb_ = "plain", "plain"
+            elif sw["pairs"] % 3 == 0:
                 ma, mb_ = "markup", "markup"
             elif sw["pairs"] % 3 == 1:
                 ma, mb_ = "plain", "plain"
@@ -912,7 +945,12 @@ class Checker:
                     "threads": [[opa, dict(opb)], [opb, dict(opa)]],
                     "p": 0.0, "setorder": "off", "cancel_plan": {}, "table": [],
                     "exits": [[1, 0], [0, 1]], "first": 0, "burst": False}
-            mode = phase_mode()
+            if knob:
+                base["knob"] = knob
+                # the other thread extracts only the other document: extracting A
+                # as well would put back what B's call evicted
+                base["threads"] = [[opa, dict(opb)], [opb]]
+            mode = "sites" if knob else phase_mode()
             op_mode = mode == "op"
             if op_mode:
                 base["opcodes"] = True
@@ -1044,6 +1082,26 @@ class Checker:
 
         forkpool.run_jobs([op for kd, op in todo], eval_isolated, workers=_cpu(), timeout=120,
                           on_result=got, deadline=deadline, stop=lambda: len(self.suspects) >= 40)
+
+    def phase_knobs(self, atlas):
+        """Sweeps with the capacities of module-level caches shrunk to 1 and 2 --
+        only when the current tree has such caches (sim/knobs.py)."""
+        self.knobs = forkpool.fork_call(_discover_knobs, None, timeout=120)
+        if not isinstance(self.knobs, list):
+            self.harness.append({"knobs": self.knobs})
+            self.knobs = []
+        self.sweep_knobs = []
+        if not self.knobs:
+            return
+        main = self.sweep
+        for size in (1, 2):
+            self._sweep_knob = size
+            try:
+                self.phase_sweep(atlas)
+            finally:
+                self._sweep_knob = None
+            self.sweep_knobs.append(dict(self.sweep, capacity=size))
+        self.sweep = main
 
     def phase_depth(self, atlas):
         """Stack-depth sweep: seeded documents (references to party names, court
@@ -1593,6 +1651,13 @@ def run(tier, verif_seed, log=print):
     bootstrap.warm_pattern_caches(log)
     atlas = atlas_mod.build(workers=_cpu())
     log(f"[C15] atlas: {atlas_mod.summary(atlas)} ({time.monotonic() - t0:.1f}s)")
+    if os.environ.get("VERIF_C15_ONLY") == "knobs":
+        ck.sweep = {}
+        ck.phase_knobs(atlas)
+        log(f"[C15] knobs: {ck.knobs}; {[(k['capacity'], k['pairs'], k['preemption_runs'], k['cancellation_runs']) for k in ck.sweep_knobs]}")
+        ck.phase_baselines()
+        ck.judge()
+        return report_mod.EXIT_VIOLATION if ck.violations else report_mod.EXIT_OK
     if os.environ.get("VERIF_C15_ONLY") == "depth":
         # development aid (never set by the registered commands): one phase, no evidence
         ck.phase_depth(atlas)
@@ -1610,6 +1675,10 @@ def run(tier, verif_seed, log=print):
         f"suspects={len(ck.suspects)} ({time.monotonic() - t0:.1f}s)")
     ck.phase_depth(atlas)
     log(f"[C15] stack-depth sweep: {ck.depth} ({time.monotonic() - t0:.1f}s)")
+    ck.phase_knobs(atlas)
+    log(f"[C15] capacity knobs on this tree: {ck.knobs}; sweeps with shrunk capacities: "
+        f"{[(k['capacity'], k['pairs'], k['preemption_runs'], k['cancellation_runs']) for k in ck.sweep_knobs]} "
+        f"({time.monotonic() - t0:.1f}s)")
     ck.phase_baselines()
     log(f"[C15] isolated baselines: {ck.baselines['evaluated']}/{ck.baselines['keys']} keys, "
         f"disagreements={ck.baselines['disagreements']} ({time.monotonic() - t0:.1f}s)")
